@@ -150,6 +150,59 @@ theorem C03_new (lo hi : Int) (s : Seg V) (h : Seg.new lo hi = some s) : SegOK s
 theorem C03_clear (s : Seg V) (LV : List (SegVal V)) (T : Option Int) (h : SegOK s LV T) : SegOK s.clear [] none :=
   ⟨h.built, by simpa [Seg.clear] using h.len, by simpa using SegRel.clear s, by simp⟩
 
+/-! ### histories -/
+
+/-- states of a segment tree over `[lo,hi]` reachable by in-contract histories (in-domain ranges, query times
+non-decreasing between clears, queries consumed to any extent `n`), with the logical content `LV` (every value
+inserted since the last clear) and the time `T` of the last query since the last clear -/
+inductive SegReach (lo hi : Int) : Seg V → List (SegVal V) → Option Int → Prop where
+  | new {s : Seg V} : Seg.new lo hi = some s → SegReach lo hi s [] none
+  | insert {s s' : Seg V} {LV : List (SegVal V)} {T : Option Int} (v : SegVal V) : SegReach lo hi s LV T →
+      InDomain s.layout v.lo v.hi → s.insert v.lo v.hi v.val v.exp = some s' → SegReach lo hi s' (v :: LV) T
+  | query {s s' : Seg V} {LV : List (SegVal V)} {T : Option Int} (a b t : Int) (n : Nat) {it it' : SegIt}
+      {out : List V} : SegReach lo hi s LV T → InDomain s.layout a b → (∀ t0, T = some t0 → t0 ≤ t) →
+      s.iter a b t = some it → segTake n s it [] = some (s', it', out) → SegReach lo hi s' LV (some t)
+  | clear {s : Seg V} {LV : List (SegVal V)} {T : Option Int} : SegReach lo hi s LV T → SegReach lo hi s.clear [] none
+
+/-- the invariant `SegOK` holds in every reachable state (induction over the history) -/
+theorem SegReach.ok {lo hi : Int} {s : Seg V} {LV : List (SegVal V)} {T : Option Int} (h : SegReach lo hi s LV T) :
+    SegOK s LV T := by
+  induction h with
+  | new hn => exact C03_new lo hi _ hn
+  | insert v _ hv hi ih =>
+    obtain ⟨s2, h1, h2⟩ := C03_insert _ _ _ v ih hv
+    rw [hi] at h1; cases h1; exact h2
+  | query a b t n _ hq hT hit htake ih =>
+    obtain ⟨it2, s2, it2', items, rest, h1, h2, _, _, _, h6⟩ := C03_query _ _ _ a b t n ih hq hT
+    rw [hit] at h1; cases h1
+    rw [htake] at h2
+    simp only [Option.some.injEq, Prod.mk.injEq] at h2
+    obtain ⟨rfl, _, _⟩ := h2
+    exact h6
+  | clear _ ih => exact C03_clear _ _ _ ih
+
+/-- **every history.** In any state reached by an in-contract history of inserts, (partially consumed) queries
+and clears, a query over `[a,b]` at a time `t` not below the last query time completes and yields — as a
+multiset — a part of exactly the values inserted since the last clear whose expiration is at least `t` and whose
+range shares a bucket with `[a,b]`; all of them when it is consumed to exhaustion. Values expired at an earlier
+query never reappear, because query times do not decrease. -/
+theorem C03_history {lo hi : Int} {s : Seg V} {LV : List (SegVal V)} {T : Option Int} (h : SegReach lo hi s LV T)
+    (a b t : Int) (n : Nat) (hq : InDomain s.layout a b) (hT : ∀ t0, T = some t0 → t0 ≤ t) :
+    ∃ (it : SegIt) (s' : Seg V) (it' : SegIt) (items rest : List (SegEnt V)), s.iter a b t = some it ∧
+      segTake n s it [] = some (s', it', items.map (·.val)) ∧
+      List.Perm ((LV.filter fun v => decide (t ≤ v.exp) && decide (bucketsOverlap s.layout v a b)).map (SegVal.toEnt s.layout))
+        (items ++ rest) ∧
+      items.length ≤ n ∧ (items.length < n → rest = []) ∧ SegReach lo hi s' LV (some t) := by
+  obtain ⟨it, s', it', items, rest, h1, h2, h3, h4, h5, _⟩ := C03_query s LV T a b t n h.ok hq hT
+  exact ⟨it, s', it', items, rest, h1, h2, h3, h4, h5, SegReach.query a b t n h hq hT h1 h2⟩
+
+/-- no in-contract insertion faults in a reachable state (every place it writes to is backed by storage) -/
+theorem C03_history_insert {lo hi : Int} {s : Seg V} {LV : List (SegVal V)} {T : Option Int} (h : SegReach lo hi s LV T)
+    (v : SegVal V) (hv : InDomain s.layout v.lo v.hi) :
+    ∃ s', s.insert v.lo v.hi v.val v.exp = some s' ∧ SegReach lo hi s' (v :: LV) T := by
+  obtain ⟨s', h1, _⟩ := C03_insert s LV T v h.ok hv
+  exact ⟨s', h1, SegReach.insert v h hv h1⟩
+
 /-! non-vacuity: the Rust unit test `test_02` (two overlapping segments, both reported once) -/
 example : ((Seg.new 0 128 : Option (Seg Nat)).bind fun s => (s.insert 10 100 1 2).bind fun s =>
     (s.insert 20 80 2 2).bind fun s => (s.iter 15 90 0).bind fun it => (segTake 10 s it []).map (·.2.2))
